@@ -276,7 +276,13 @@ def csv_classes(c):
 
 def known_matcher(entry, case, out):
     cls = entry.get("match", {}).get("class")
-    return cls in (kv_classes(case) | csv_classes(case))
+    classes = kv_classes(case) | csv_classes(case)
+    try:        # known_bom of Model/Csv.v: the encoded text itself begins with EF BB BF
+        if case["op"] == "csv" and out["enc"]["ok"]["b"].startswith("efbbbf"):
+            classes.add("csv-bom")
+    except Exception:
+        pass
+    return cls in classes
 
 
 def nontrivial(c):
